@@ -46,6 +46,7 @@ def run(ctx):
     c05.side_rules_2(ctx)
     c05.side_rules_3(ctx)
     c05.side_rules_4(ctx, cg)
+    c05.side_rules_5(ctx)
     validation_rules(ctx, cg)
     narrowing_casts(ctx, cg)
     side = RV.SideConditions(ctx)
